@@ -132,7 +132,7 @@ pub fn run(ctx: &Ctx) -> Report {
     // (2) random larger states on both sides of the end-game threshold
     if ctx.want("random") {
         let mut r = ctx.rng("c13");
-        let n_states = ctx.count(25_000, 1_200_000);
+        let n_states = ctx.count(100_000, 1_500_000);
         for k in 0..n_states {
             let n = r.range(8, 40) as usize;
             let npeers = r.range(1, 12) as usize;
@@ -191,7 +191,7 @@ pub fn run_c14_direct(ctx: &Ctx, rep: &mut Report) {
     let mut r = ctx.rng("c14");
     rep.need("rotations_carried_out", 2000);
     rep.need("snapshots_checked", 20_000);
-    let n_hist = ctx.count(8_000, 400_000);
+    let n_hist = ctx.count(32_000, 500_000);
     for h in 0..n_hist {
         let maxpeers = match r.below(4) { 0 => r.range(0, 5) as usize, 1 => r.range(9, 14) as usize, _ => r.range(0, 40) as usize };
         let rounds = r.range(3, 8) as usize;
